@@ -32,6 +32,8 @@ func verif_fst3[A, B, C any](a A, b B, c C) A { return a }
 func verif_snd3[A, B, C any](a A, b B, c C) B { return b }
 func verif_thd3[A, B, C any](a A, b B, c C) C { return c }
 func verif_ptr[T any](n int) *T { return nil }
+func verif_resval[T any](name string) T { var z T; return z }
+func verif_argval[T any](name string, i int) T { var z T; return z }
 func verif_le64(b []byte) uint64
 func verif_haskey(m, k any) bool
 func verif_same(a, b any) bool
